@@ -42,6 +42,83 @@ theorem C11_table (c : Curve) (name : String) : flagged c name = docFlag c name 
   · exact contains_congr (A := bls12381Templates) (B := docNames .bls12381) (by decide) (by decide) name
   · exact contains_congr (A := goldilocksTemplates) (B := docNames .goldilocks) (by decide) (by decide) name
 
+theorem instReports_cs16 (c : Curve) (i : Inst) : "CS0016" ∈ instReports c i ↔ flagged c i.name = true := by
+  unfold instReports
+  rw [List.mem_append]
+  constructor
+  · rintro (h | h)
+    · cases hf : flagged c i.name
+      · rw [hf] at h; simp at h
+      · rfl
+    · exfalso
+      split at h
+      · split at h <;> simp at h
+      · simp at h
+  · intro h; left; simp [h]
+
+theorem instReports_cs10 (c : Curve) (i : Inst) :
+    "CS0010" ∈ instReports c i ↔
+      ∃ a, i.args = [a] ∧ (i.name = "Num2Bits" ∨ i.name = "Bits2Num") ∧ nonstrictFlagged c a = true := by
+  unfold instReports
+  rw [List.mem_append]
+  constructor
+  · rintro (h | h)
+    · exfalso; split at h <;> simp at h
+    · split at h
+      · rename_i a heq
+        split at h
+        · rename_i hc
+          simp only [Bool.and_eq_true, Bool.or_eq_true, beq_iff_eq] at hc
+          exact ⟨a, heq, hc.1, hc.2⟩
+        · simp at h
+      · simp at h
+  · rintro ⟨a, ha, hn, hf⟩
+    right
+    rw [ha]
+    have : (i.name == "Num2Bits" || i.name == "Bits2Num") = true := by
+      simp only [Bool.or_eq_true, beq_iff_eq]; exact hn
+    simp [this, hf]
+
+/-- Every instantiation of the program — in a template body or as the main component — is reported as BN254-specific exactly when
+    the documented table marks (curve, template), and as a non-strict conversion exactly when the curve is BN254, the template is
+    `Num2Bits`/`Bits2Num` with one argument, and that argument is not a known constant below 254. -/
+theorem C11_every_instantiation (c : Curve) (bodies : List (List Inst)) (main : Option Inst) (i : Inst)
+    (hi : i ∈ bodies.flatten ∨ main = some i) :
+    ∃ rs, (i, rs) ∈ programReports c bodies main ∧
+      ("CS0016" ∈ rs ↔ docFlag c i.name = true) ∧
+      ("CS0010" ∈ rs ↔ ∃ a, i.args = [a] ∧ (i.name = "Num2Bits" ∨ i.name = "Bits2Num") ∧ c = .bn254 ∧ ¬ ∃ n, a = some n ∧ n < 254) := by
+  refine ⟨instReports c i, ?_, ?_, ?_⟩
+  · unfold programReports programInsts
+    apply List.mem_map.mpr
+    refine ⟨i, ?_, rfl⟩
+    rcases hi with h | h
+    · exact List.mem_append_left _ h
+    · exact List.mem_append_right _ (by simp [h])
+  · rw [← C11_table]; exact instReports_cs16 c i
+  · rw [instReports_cs10]
+    have hb : primeBits .bn254 = 254 := by decide
+    constructor
+    · rintro ⟨a, ha, hn, hf⟩
+      refine ⟨a, ha, hn, ?_⟩
+      cases c <;> cases a <;> simp [nonstrictFlagged, hb] at hf ⊢
+      omega
+    · rintro ⟨a, ha, hn, hc, hv⟩
+      refine ⟨a, ha, hn, ?_⟩
+      subst hc
+      cases a with
+      | none => rfl
+      | some n =>
+        simp [nonstrictFlagged, hb]
+        apply Classical.byContradiction
+        intro hlt
+        exact hv ⟨n, rfl, by omega⟩
+
+/-- non-vacuity: `component main = Num2Bits(254);` next to a template body that instantiates `Sign` -/
+example : programReports .bn254 [[⟨"Sign", []⟩]] (some ⟨"Num2Bits", [some 254]⟩) =
+    [(⟨"Sign", []⟩, []), (⟨"Num2Bits", [some 254]⟩, ["CS0010"])] := by decide
+example : programReports .bls12381 [[⟨"Sign", []⟩]] (some ⟨"Num2Bits", [some 254]⟩) =
+    [(⟨"Sign", []⟩, ["CS0016"]), (⟨"Num2Bits", [some 254]⟩, [])] := by decide
+
 /-- nothing is ever flagged under BN254 -/
 theorem C11_bn254_never (name : String) : flagged .bn254 name = false := rfl
 
